@@ -29,12 +29,19 @@ def back_kwargs(opts):
     return kw
 
 
-def one_case(spec, opts, fault, ftype="exception"):
+def one_case(spec, opts, fault, ftype="exception", pre_runs=0):
     """returns (list of (sig, detail), steps of the inner run, success flag)"""
     out = []
     a = runner.prepare(spec, opts)
     b = runner.prepare(spec, opts)
     before = structure(a)
+    for _ in range(pre_runs):
+        # earlier, undisturbed backward runs on the same object (the examined run must behave like a first one)
+        try:
+            a.project.backward_simulate(**back_kwargs(opts))
+        except Exception as e:
+            out.append(("C17:earlier-backward-run-raised:%s" % type(e).__name__, {"error": repr(e)}))
+            return out, 0, False
     names_before = [t.ID for t in a.project.workflow.task_list]
     ex = runner.Exec(spec, opts)
     bootstrap.set_observer(runner.make_observer(ex, phases=(), fault=fault, fault_type=runner.InjectedInterrupt if ftype == "interrupt" else runner.InjectedFault))
@@ -108,6 +115,13 @@ def work(chunk):
             col.violation({"property": "C17", "sig": sig, "kind": "back", "spec": spec, "opts": opts, "fault": None, "detail": det})
         if ok:
             col.nontrivial.add(hash((key, "ok")))
+        for pre in (1, 2):
+            got, _s, _ok = one_case(spec, opts, None, pre_runs=pre)
+            col.evaluations += 1
+            col.checks["c17.repeated"] += 1
+            col.transitions.add(hash((key, "pre", pre)))
+            for sig, det in got:
+                col.violation({"property": "C17", "sig": sig + ":after-%d-earlier-backward-run(s)" % pre, "kind": "back", "spec": spec, "opts": opts, "fault": None, "pre_runs": pre, "detail": det})
         for t in range(0, steps + 1):
             for ph in PHASES:
                 for ftype in ("exception", "interrupt"):
@@ -177,5 +191,7 @@ def run(tier, seed):
 
 
 def replay(v):
-    got, steps, ok = one_case(v["spec"], v["opts"], tuple(v["fault"]) if v.get("fault") else None, v.get("ftype") or "exception")
-    return [{"sig": s, "detail": d} for s, d in got]
+    pre = int(v.get("pre_runs") or 0)
+    got, steps, ok = one_case(v["spec"], v["opts"], tuple(v["fault"]) if v.get("fault") else None, v.get("ftype") or "exception", pre_runs=pre)
+    suffix = (":after-%d-earlier-backward-run(s)" % pre) if pre else ""
+    return [{"sig": s + suffix, "detail": d} for s, d in got]
